@@ -177,7 +177,20 @@ def specNote (v : VSt) (goid : Nat) (point : String) (wid : Nat) (n : Nat) : VSt
       | none => (v, "?ok")
   | _ => (v, "?ok")
 
-def run (v : VSt) (args : List Str) : VSt × String × String × String :=
+/-- which property a specification verdict belongs to -/
+def verdictFor (mode spec : String) : String :=
+  if spec = "?ok" then spec else
+  let has (w : String) : Bool := (spec.splitOn w).length > 1
+  let c01 := has "two-callbacks-of-group"
+  let c02 := has "started-twice" || has "-before-" || has "never-accepted" || has "never-started"
+  let c03 := has "shutdown" || has "serve-did-not-return" || has "api-call-panicked" || has "connection-closed"
+  match mode with
+  | "pool01" => if c01 then spec else "?ok"
+  | "pool02" => if c02 then spec else "?ok"
+  | "pool03" => if c03 then spec else "?ok"
+  | _ => spec
+
+def run (mode : String) (v : VSt) (args : List Str) : VSt × String × String × String :=
   match args with
   | [c] => if c = str "reset" then ({}, "ok", "-", "triv-reset") else (v, "bad-op", "-", "bad")
   | [c, goid, point, wid, n] =>
@@ -192,7 +205,7 @@ def run (v : VSt) (args : List Str) : VSt × String × String × String :=
     let mcol := match v.rejected with
       | none => "ok"
       | some why => if was.isSome then "skip" else "reject:" ++ why
-    (v, mcol, spec, pt)
+    (v, mcol, verdictFor mode spec, pt)
   | _ => (v, "bad-op", "-", "bad")
 
 end GoRes.Driver.Pool
